@@ -1,0 +1,328 @@
+//go:build verif
+
+// Verification hooks for property C17 (style registry / style resolution):
+// canonical dumps of the internal style tables and of the three levels of
+// style attachment of a worksheet. Compiled only with `-tags verif`; adds
+// code and changes none.
+
+package excelize
+
+import (
+	"fmt"
+	"math"
+	"strconv"
+	"strings"
+)
+
+func verifC17Float(x float64, unit float64) string {
+	v := x * unit
+	if v == math.Trunc(v) && math.Abs(v) < 1e15 {
+		return strconv.FormatInt(int64(v), 10)
+	}
+	return "x" + strconv.FormatUint(math.Float64bits(x), 16)
+}
+
+func verifC17G(x float64) string { return strconv.FormatFloat(x, 'g', -1, 64) }
+
+func verifC17Color(c *xlsxColor) string {
+	if c == nil {
+		return "~"
+	}
+	th := "~"
+	if c.Theme != nil {
+		th = strconv.Itoa(*c.Theme)
+	}
+	s := fmt.Sprintf("%s/%d/%s/%s", verifHex(c.RGB), c.Indexed, th, verifC17Float(c.Tint, 8))
+	if c.Auto {
+		s += "/auto"
+	}
+	return s
+}
+
+func verifC17Bool(b *attrValBool) string {
+	if b == nil {
+		return "~"
+	}
+	if b.Val == nil || *b.Val {
+		return "1"
+	}
+	return "0"
+}
+
+func verifC17PBool(b *bool) string {
+	if b == nil {
+		return "~"
+	}
+	if *b {
+		return "1"
+	}
+	return "0"
+}
+
+func verifC17PInt(p *int) string {
+	if p == nil {
+		return "~"
+	}
+	return strconv.Itoa(*p)
+}
+
+func verifC17Font(f *xlsxFont) string {
+	if f == nil {
+		return "nil"
+	}
+	u, sz, name, fam := "~", "~", "~", "~"
+	if f.U != nil {
+		u = verifHex(f.U.Value())
+	}
+	if f.Sz != nil {
+		sz = verifC17Float(f.Sz.Value(), 4)
+	}
+	if f.Name != nil {
+		name = verifHex(f.Name.Value())
+	}
+	if f.Family != nil && f.Family.Val != nil {
+		fam = strconv.Itoa(*f.Family.Val)
+	}
+	extra := ""
+	if f.Outline != nil || f.Shadow != nil || f.Condense != nil || f.Extend != nil || f.Charset != nil || f.Scheme != nil {
+		extra = ".extra"
+	}
+	return fmt.Sprintf("%s.%s.%s.%s.%s.%s.%s.%s%s", verifC17Bool(f.B), verifC17Bool(f.I), verifC17Bool(f.Strike), u, sz, verifC17Color(f.Color), name, fam, extra)
+}
+
+// VerifC17GradientParams renders the non-stop attributes and the stop
+// positions of a gradient fill (the part of styleFillVariants entries that
+// identifies a variant).
+func verifC17GradientParams(g *xlsxGradientFill) string {
+	pos := make([]string, 0, len(g.Stop))
+	for _, st := range g.Stop {
+		if st == nil {
+			pos = append(pos, "nil")
+			continue
+		}
+		pos = append(pos, verifC17G(st.Position))
+	}
+	return fmt.Sprintf("%s/%s/%s/%s/%s/%s/%s", verifC17G(g.Degree), verifHex(g.Type), verifC17G(g.Left), verifC17G(g.Right), verifC17G(g.Top), verifC17G(g.Bottom), strings.Join(pos, ","))
+}
+
+func verifC17Fill(fl *xlsxFill) string {
+	if fl == nil {
+		return "nil"
+	}
+	if fl.PatternFill == nil && fl.GradientFill == nil {
+		return "e"
+	}
+	var parts []string
+	if fl.PatternFill != nil {
+		parts = append(parts, fmt.Sprintf("p.%s.%s.%s", verifHex(fl.PatternFill.PatternType), verifC17Color(fl.PatternFill.FgColor), verifC17Color(fl.PatternFill.BgColor)))
+	}
+	if fl.GradientFill != nil {
+		cs := make([]string, 0, len(fl.GradientFill.Stop))
+		for _, st := range fl.GradientFill.Stop {
+			if st == nil {
+				cs = append(cs, "nil")
+				continue
+			}
+			cs = append(cs, verifC17Color(&st.Color))
+		}
+		parts = append(parts, fmt.Sprintf("g.%s.%s", verifC17GradientParams(fl.GradientFill), strings.Join(cs, ",")))
+	}
+	return strings.Join(parts, "+")
+}
+
+func verifC17Line(l *xlsxLine) string {
+	if l == nil {
+		return "~"
+	}
+	return verifHex(l.Style) + "|" + verifC17Color(l.Color)
+}
+
+func verifC17Border(b *xlsxBorder) string {
+	if b == nil {
+		return "nil"
+	}
+	flag := func(v bool) string {
+		if v {
+			return "1"
+		}
+		return "0"
+	}
+	extra := ""
+	if b.Outline || b.Vertical != nil || b.Horizontal != nil {
+		extra = ".extra"
+	}
+	return fmt.Sprintf("%s%s.%s.%s.%s.%s.%s%s", flag(b.DiagonalUp), flag(b.DiagonalDown), verifC17Line(b.Left), verifC17Line(b.Right), verifC17Line(b.Top), verifC17Line(b.Bottom), verifC17Line(b.Diagonal), extra)
+}
+
+// VerifC17AlignToken renders an alignment record as one opaque token ("z" for
+// the zero value).
+func VerifC17AlignToken(a *xlsxAlignment) string {
+	if a == nil {
+		return "~"
+	}
+	if *a == (xlsxAlignment{}) {
+		return "z"
+	}
+	b2 := func(v bool) int {
+		if v {
+			return 1
+		}
+		return 0
+	}
+	return verifHex(fmt.Sprintf("%s|%d|%d|%d|%d|%d|%d|%s|%d", a.Horizontal, a.Indent, b2(a.JustifyLastLine), a.ReadingOrder, a.RelativeIndent, b2(a.ShrinkToFit), a.TextRotation, a.Vertical, b2(a.WrapText)))
+}
+
+func verifC17Xf(x *xlsxXf) string {
+	prot := "~"
+	if x.Protection != nil {
+		prot = verifC17PBool(x.Protection.Hidden) + verifC17PBool(x.Protection.Locked)
+	}
+	extra := ""
+	if x.QuotePrefix != nil || x.PivotButton != nil {
+		extra = ".extra"
+	}
+	return fmt.Sprintf("%s.%s.%s.%s.%s.%s.%s.%s.%s.%s.%s.%s%s",
+		verifC17PInt(x.NumFmtID), verifC17PInt(x.FontID), verifC17PInt(x.FillID), verifC17PInt(x.BorderID),
+		verifC17PBool(x.ApplyNumberFormat), verifC17PBool(x.ApplyFont), verifC17PBool(x.ApplyFill), verifC17PBool(x.ApplyBorder),
+		verifC17PBool(x.ApplyAlignment), verifC17PBool(x.ApplyProtection), VerifC17AlignToken(x.Alignment), prot, extra)
+}
+
+// VerifC17DumpStyles prints the style tables (fonts, fills, borders, numFmts,
+// cellXfs) with their Count fields in a canonical single-line form.
+func VerifC17DumpStyles(f *File) string {
+	s, err := f.stylesReader()
+	if err != nil || s == nil {
+		return "ERR"
+	}
+	var b strings.Builder
+	list := func(name string, count int, items []string) {
+		fmt.Fprintf(&b, "%s=%d:[%s] ", name, count, strings.Join(items, ";"))
+	}
+	if s.Fonts == nil {
+		b.WriteString("fonts=~ ")
+	} else {
+		it := make([]string, 0, len(s.Fonts.Font))
+		for _, x := range s.Fonts.Font {
+			it = append(it, verifC17Font(x))
+		}
+		list("fonts", s.Fonts.Count, it)
+	}
+	if s.Fills == nil {
+		b.WriteString("fills=~ ")
+	} else {
+		it := make([]string, 0, len(s.Fills.Fill))
+		for _, x := range s.Fills.Fill {
+			it = append(it, verifC17Fill(x))
+		}
+		list("fills", s.Fills.Count, it)
+	}
+	if s.Borders == nil {
+		b.WriteString("borders=~ ")
+	} else {
+		it := make([]string, 0, len(s.Borders.Border))
+		for _, x := range s.Borders.Border {
+			it = append(it, verifC17Border(x))
+		}
+		list("borders", s.Borders.Count, it)
+	}
+	if s.NumFmts == nil {
+		b.WriteString("numfmts=~ ")
+	} else {
+		it := make([]string, 0, len(s.NumFmts.NumFmt))
+		for _, x := range s.NumFmts.NumFmt {
+			if x == nil {
+				it = append(it, "nil")
+				continue
+			}
+			it = append(it, fmt.Sprintf("%d/%s", x.NumFmtID, verifHex(x.FormatCode)))
+		}
+		list("numfmts", s.NumFmts.Count, it)
+	}
+	if s.CellXfs == nil {
+		b.WriteString("xfs=~")
+	} else {
+		it := make([]string, 0, len(s.CellXfs.Xf))
+		for i := range s.CellXfs.Xf {
+			it = append(it, verifC17Xf(&s.CellXfs.Xf[i]))
+		}
+		fmt.Fprintf(&b, "xfs=%d:[%s]", s.CellXfs.Count, strings.Join(it, ";"))
+	}
+	return b.String()
+}
+
+// VerifC17Counts prints len/Count of every style table.
+func VerifC17Counts(f *File) string {
+	s, err := f.stylesReader()
+	if err != nil || s == nil {
+		return "ERR"
+	}
+	nf := "~"
+	if s.NumFmts != nil {
+		nf = fmt.Sprintf("%d/%d", len(s.NumFmts.NumFmt), s.NumFmts.Count)
+	}
+	return fmt.Sprintf("fonts=%d/%d fills=%d/%d borders=%d/%d numfmts=%s xfs=%d/%d",
+		len(s.Fonts.Font), s.Fonts.Count, len(s.Fills.Fill), s.Fills.Count,
+		len(s.Borders.Border), s.Borders.Count, nf, len(s.CellXfs.Xf), s.CellXfs.Count)
+}
+
+// VerifC17NumFmtDecimal exposes extractNumFmtDecimal (nfp based) for one
+// format code.
+func VerifC17NumFmtDecimal(f *File, code string) int { return f.extractNumFmtDecimal(code) }
+
+// VerifC17NumFmtCodes lists the format codes currently held in numFmts.
+func VerifC17NumFmtCodes(f *File) []string {
+	s, err := f.stylesReader()
+	if err != nil || s == nil || s.NumFmts == nil {
+		return nil
+	}
+	var out []string
+	for _, x := range s.NumFmts.NumFmt {
+		if x != nil {
+			out = append(out, x.FormatCode)
+		}
+	}
+	return out
+}
+
+// VerifC17BuiltInNumFmt exposes the built-in number format code table.
+func VerifC17BuiltInNumFmt(id int) (string, bool) { c, ok := builtInNumFmt[id]; return c, ok }
+
+// VerifC17CurrencyNumFmt exposes the currency number format code table.
+func VerifC17CurrencyNumFmt(id int) (string, bool) { c, ok := currencyNumFmt[id]; return c, ok }
+
+// VerifC17DumpGrid prints the three levels of style attachment of a worksheet
+// as stored: row slots with their style and the style of every cell slot, and
+// the column ranges with their style. It does not modify the worksheet beyond
+// what workSheetReader does.
+func VerifC17DumpGrid(f *File, sheet string) string {
+	ws, err := f.workSheetReader(sheet)
+	if err != nil {
+		return "ERR"
+	}
+	var b strings.Builder
+	fmt.Fprintf(&b, "rows=%d:[", len(ws.SheetData.Row))
+	for i := range ws.SheetData.Row {
+		row := &ws.SheetData.Row[i]
+		if i > 0 {
+			b.WriteByte(';')
+		}
+		fmt.Fprintf(&b, "%d/", row.S)
+		for j := range row.C {
+			if j > 0 {
+				b.WriteByte(',')
+			}
+			b.WriteString(strconv.Itoa(row.C[j].S))
+		}
+	}
+	b.WriteString("] cols=[")
+	if ws.Cols != nil {
+		for i, c := range ws.Cols.Col {
+			if i > 0 {
+				b.WriteByte(';')
+			}
+			fmt.Fprintf(&b, "%d-%d:%d", c.Min, c.Max, c.Style)
+		}
+	}
+	b.WriteString("]")
+	return b.String()
+}
